@@ -7,15 +7,20 @@ import PestModel.Lemmas.ValidatorSound
 # C06 — validation guarantees termination and accepts well-formed grammars
 
 `PestModel.V.validateAst` is `pest_meta::validator::validate_ast` (tied to the real validator by the
-verdict correspondence). `PestModel.Ref` is the reference semantics.
+verdict correspondence), after the fixes of `left_recursion::check_expr`: the trace is a chain of
+(rule, skipping inside it) pairs, and the implicit `WHITESPACE`/`COMMENT` calls behind a sequence
+head — or behind the first copy of a bounded repetition — that may match nothing are entered too.
+`PestModel.Ref` is the reference semantics.
 
-* Soundness as first stated ("an accepted grammar that does not use the stack terminates on every
-  input from every rule", `ValidatorSoundStmt`) is **false**: `validator_sound_refuted`
-  (`WHITESPACE = _{ a }  a = !{ EOI ~ "x" }` is accepted and `a` loops on the empty input through the
-  implicit whitespace skipping inside the non-atomic rule), `validator_sound_refuted_tag` (tags
-  without `grammar-extras` are not looked into).
-* `validator_sound_partial`: with "no tag without `grammar-extras`" and "no `!{…}` rule reachable from
-  `WHITESPACE`/`COMMENT`" every rule call of an accepted stack-free grammar terminates.
+* `validator_sound_partial`: every rule call of an accepted stack-free grammar terminates, provided
+  that without `grammar-extras` the rules contain no tagged expression. With `grammar-extras` there is
+  no side condition (`validator_sound_extras`).
+* Soundness as first stated (`ValidatorSoundStmt`, any hand-built AST) is **false** for exactly that
+  reason: `validator_sound_refuted_tag` (tags without `grammar-extras` are not looked into).
+* The two grammars on which the earlier versions of the check were unsound are now rejected, and
+  still diverge in the reference semantics: `cexWs` (`WHITESPACE = _{ a }  a = !{ EOI ~ "x" }`, implicit
+  skip behind a sequence head) and `cexRep` (`WHITESPACE = _{ a ~ "y" }  a = !{ "x"{,2} }`, implicit skip
+  between the unrolled copies of a bounded repetition).
 * Completeness (`validator_complete`): strictly guarded grammars are accepted.
 -/
 namespace PestModel.C06
@@ -54,23 +59,25 @@ def WellNamed (rules : List Rule) : Prop :=
 /-- **Soundness, as originally stated** (a proposition, not a theorem): if the validator accepts a
 stack-free grammar, then parsing any input from any of its rules, in any mode, from any position,
 terminates (the reference semantics reaches a definite result: success, failure, or `stuck` on an
-undefined name). It is **false** (`validator_sound_refuted`); `validator_sound_partial` is the
-nearest true statement. -/
+undefined name). It is **false** (`validator_sound_refuted`, because of tags without
+`grammar-extras`); `validator_sound_partial` is the nearest true statement. -/
 def ValidatorSoundStmt : Prop :=
   ∀ (extras : Bool) (rules : List Rule), WellNamed rules →
     (∀ r ∈ rules, StackFree r.expr = true) → validateAst extras rules = [] →
     ∀ (uni : String → Option CharSet) (input : Str) (name : String) (m : Atomicity) (la : Bool) (s : St),
       ∃ fuel, call { rules, input, extras, uni } fuel m la name s ≠ .fuel
 
-/-! ### the counterexamples -/
+/-! ### the grammars the earlier versions of the check wrongly accepted -/
 
 /-- `WHITESPACE = _{ a }   a = !{ EOI ~ "x" }`: a `!{…}` rule reachable from `WHITESPACE`. Inside
 `a` the sequence skips implicit whitespace, which calls `WHITESPACE`, which calls `a` … at the
-same position. The left-recursion check does not see the implicit call. -/
+same position. The left-recursion check now enters the implicit call. -/
 def cexWs : List Rule :=
   [⟨"WHITESPACE", .silent, .ident "a"⟩, ⟨"a", .nonAtomic, .seq (.ident "EOI") (.str ['x'])⟩]
 
-theorem cexWs_accepted : ∀ extras, validateAst extras cexWs = [] := by decide
+/-- the fixed check rejects it. -/
+theorem cexWs_rejected : ∀ extras, validateAst extras cexWs = [.leftRecursive "WHITESPACE", .leftRecursive "a"] := by
+  decide
 
 theorem cexWs_wellNamed : WellNamed cexWs := by
   constructor
@@ -85,7 +92,7 @@ theorem cexWs_step (extras : Bool) (uni : String → Option CharSet) (k : Nat) (
   simp only [cexWs] at h
   simp [call, denote, skipWs, star, Ctx.rule?, Ctx.rule?.go, Ctx.has, cexWs, bodyMode, PestModel.LineCol.bLen, h]
 
-/-- on the empty input, calling `a` needs unbounded fuel. -/
+/-- on the empty input, calling `a` needs unbounded fuel (so the rejection is justified). -/
 theorem cexWs_diverges (extras : Bool) (uni : String → Option CharSet) :
     ∀ (k : Nat) (m : Atomicity) (la : Bool),
       call { rules := cexWs, input := [], extras, uni } k m la "a" ⟨0, []⟩ = .fuel := by
@@ -100,13 +107,42 @@ theorem cexWs_diverges (extras : Bool) (uni : String → Option CharSet) :
     · exact hle
     · exact hle.trans h6
 
-/-- **the soundness statement is false**: the validator accepts a grammar whose rule `a` does not
-terminate on the empty input (a `!{…}` rule called from `WHITESPACE`). -/
-theorem validator_sound_refuted : ¬ ValidatorSoundStmt := by
-  intro H
-  obtain ⟨fuel, h⟩ := H false cexWs cexWs_wellNamed cexWs_stackFree (cexWs_accepted false)
-    (fun _ => none) [] "a" .nonAtomic false ⟨0, []⟩
-  exact h (cexWs_diverges false _ fuel _ _)
+/-- `WHITESPACE = _{ a ~ "y" }   a = !{ "x"{,2} }`: `"x"{,2}` means `"x"? ~ "x"?`; when the first copy
+matches nothing, the implicit skip between the copies calls `WHITESPACE` at the same position, which
+calls `a`. The left-recursion check now enters the implicit call behind the first copy of a bounded
+repetition. -/
+def cexRep : List Rule :=
+  [⟨"WHITESPACE", .silent, .seq (.ident "a") (.str ['y'])⟩, ⟨"a", .nonAtomic, .repMax (.str ['x']) 2⟩]
+
+/-- the fixed check rejects it. -/
+theorem cexRep_rejected : ∀ extras, validateAst extras cexRep = [.leftRecursive "WHITESPACE", .leftRecursive "a"] := by
+  decide
+
+theorem cexRep_stackFree : ∀ r ∈ cexRep, StackFree r.expr = true := by decide
+
+theorem cexRep_step (extras : Bool) (uni : String → Option CharSet) (k : Nat) (m : Atomicity) (la : Bool)
+    (h : call { rules := cexRep, input := [], extras, uni } k .atomic la "a" ⟨0, []⟩ = .fuel) :
+    call { rules := cexRep, input := [], extras, uni } (k + 8) m la "a" ⟨0, []⟩ = .fuel := by
+  simp only [cexRep] at h
+  simp [call, denote, skipWs, star, lit, seqOfList, PestModel.PS.restAt, PestModel.LineCol.splitAt?, Ctx.rule?,
+    Ctx.rule?.go, Ctx.has, cexRep, bodyMode, h]
+
+/-- on the empty input, calling `a` needs unbounded fuel. -/
+theorem cexRep_diverges (extras : Bool) (uni : String → Option CharSet) :
+    ∀ (k : Nat) (m : Atomicity) (la : Bool),
+      call { rules := cexRep, input := [], extras, uni } k m la "a" ⟨0, []⟩ = .fuel := by
+  intro k
+  induction k with
+  | zero => intro m la; rfl
+  | succ k ih =>
+    intro m la
+    have h8 := cexRep_step extras uni k m la (ih .atomic la)
+    have hle := (lev_mono { rules := cexRep, input := [], extras, uni } (show k + 1 ≤ k + 8 by omega)).ca m la "a" ⟨0, []⟩
+    rcases hle with hle | hle
+    · exact hle
+    · exact hle.trans h8
+
+/-! ### the remaining counterexample to the statement for hand-built ASTs -/
 
 /-- `a = { #t = a }` without `grammar-extras`: the validator does not look into tagged expressions
 (the meta-grammar cannot produce a tag without `grammar-extras`, so this needs a hand-built AST). -/
@@ -134,12 +170,15 @@ theorem cexTag_diverges (uni : String → Option CharSet) (input : Str) :
     · exact hle
     · exact hle.trans h3
 
-/-- a second, independent refutation (tags without `grammar-extras`). -/
+/-- the statement for arbitrary ASTs is false: tags without `grammar-extras` are not looked into. -/
 theorem validator_sound_refuted_tag : ¬ ValidatorSoundStmt := by
   intro H
   obtain ⟨fuel, h⟩ := H false cexTag (by constructor <;> decide) (by decide) cexTag_accepted
     (fun _ => none) [] "a" .nonAtomic false ⟨0, []⟩
   exact h (cexTag_diverges _ _ fuel _ _ _)
+
+/-- **the soundness statement (for arbitrary ASTs) is false.** -/
+theorem validator_sound_refuted : ¬ ValidatorSoundStmt := validator_sound_refuted_tag
 
 /-! ### the nearest true statement -/
 
@@ -147,17 +186,13 @@ theorem stackFree_eq_SF : ∀ e : Expr, StackFree e = SF e := by
   intro e
   induction e <;> simp_all [StackFree, SF, stackBuiltins, stackNames]
 
-/-- **Soundness (partial).** The two extra hypotheses exclude exactly the two classes of
-counterexamples above:
-* `htag`: without `grammar-extras` the rules contain no tagged expression (`NoTag`);
-* `hna` (`NonAtomicOK`): no `!{…}` (non-atomic) rule other than `WHITESPACE`/`COMMENT` themselves is
-  reachable from `WHITESPACE`/`COMMENT` through rule references (`WsReach`). This holds in particular
-  if the grammar defines neither `WHITESPACE` nor `COMMENT` (`nonAtomicOK_of_no_ws`), or has no `!{…}`
-  rules (`nonAtomicOK_of_no_nonAtomic`).
-`WellNamed` is not needed. Then every rule call, in every mode, from every state, terminates. -/
+/-- **Soundness.** If the validator accepts a stack-free grammar — and, without `grammar-extras`, the
+rules contain no tagged expression (`NoTag`; the meta-grammar cannot produce one) — then every rule
+call, in every mode, from every state, terminates. `WellNamed` is not needed. The hypothesis `htag`
+excludes exactly the counterexample `cexTag`. -/
 theorem validator_sound_partial (extras : Bool) (rules : List Rule)
     (hsf : ∀ r ∈ rules, StackFree r.expr = true) (hv : validateAst extras rules = [])
-    (htag : extras = false → ∀ r ∈ rules, NoTag r.expr = true) (hna : NonAtomicOK rules)
+    (htag : extras = false → ∀ r ∈ rules, NoTag r.expr = true)
     (uni : String → Option CharSet) (input : Str) (name : String) (m : Atomicity) (la : Bool) (s : St) :
     ∃ fuel, call { rules, input, extras, uni } fuel m la name s ≠ .fuel := by
   let c : Ctx := { rules, input, extras, uni }
@@ -167,22 +202,27 @@ theorem validator_sound_partial (extras : Bool) (rules : List Rule)
     cases hx : extras with
     | true => simp [TagOK, c, hx]
     | false => simp [TagOK, c, hx, htag hx r hr]
-  have hne := sound_core (c := c) hsf' htag' hv hna name s m la
+  have hne := sound_core (c := c) hsf' htag' hv name s m la
   obtain ⟨n, hn⟩ := exists_call c m la name s
   exact ⟨n, by rw [hn]; exact hne⟩
 
-/-- the counterexample `cexWs` violates exactly `NonAtomicOK` (it has no tags), `cexTag` exactly `htag`. -/
-theorem cexWs_noTag : ∀ r ∈ cexWs, NoTag r.expr = true := by decide
+/-- **Soundness with `grammar-extras`**: no side condition besides stack-freeness. -/
+theorem validator_sound_extras (rules : List Rule)
+    (hsf : ∀ r ∈ rules, StackFree r.expr = true) (hv : validateAst true rules = [])
+    (uni : String → Option CharSet) (input : Str) (name : String) (m : Atomicity) (la : Bool) (s : St) :
+    ∃ fuel, call { rules, input, extras := true, uni } fuel m la name s ≠ .fuel :=
+  validator_sound_partial true rules hsf hv (fun h => by cases h) uni input name m la s
 
-theorem cexWs_not_nonAtomicOK : ¬ NonAtomicOK cexWs := by
-  intro h
-  have h1 : WsReach cexWs "a" := .step .ws (n := "WHITESPACE") (body := .ident "a") (by decide) (by simp [allIdents])
-  have := h ⟨"a", .nonAtomic, .seq (.ident "EOI") (.str ['x'])⟩ (by simp [cexWs]) h1 rfl
-  revert this
-  decide
+/-- in particular a parse from any rule (`meaning`) terminates. -/
+theorem validator_sound_meaning (extras : Bool) (rules : List Rule)
+    (hsf : ∀ r ∈ rules, StackFree r.expr = true) (hv : validateAst extras rules = [])
+    (htag : extras = false → ∀ r ∈ rules, NoTag r.expr = true)
+    (uni : String → Option CharSet) (rule : String) (input : Str) :
+    ∃ fuel, meaning rules extras uni fuel rule input ≠ .fuel :=
+  validator_sound_partial extras rules hsf hv htag uni input rule .nonAtomic false ⟨0, []⟩
 
-theorem cexTag_nonAtomicOK : NonAtomicOK cexTag :=
-  nonAtomicOK_of_no_nonAtomic (by decide)
+/-- the counterexample `cexTag` violates exactly `htag`. -/
+theorem cexTag_not_noTag : ¬ ∀ r ∈ cexTag, NoTag r.expr = true := by decide
 
 /-- `e` begins by matching at least one character through a non-empty literal, a range or a
 single-character built-in (a name the grammar does not define and that is not `SOI`/`EOI`/a stack
@@ -333,44 +373,75 @@ theorem guarded_subExprs (extras : Bool) (rules : List Rule) : ∀ (e : Expr) (l
     exact ⟨lm, h⟩
 
 /-- the left-recursion check never fires on a guarded expression: it stops at the first leading
-character, and no grammar rule is referenced before it. -/
-theorem guarded_checkExpr (extras : Bool) (rules : List Rule) : ∀ (fuel : Nat) (e : Expr) (trace : List String),
-    (∀ n ∈ trace, (lookup rules n).isSome = true) → Guarded rules true e = true →
-    checkExpr extras rules fuel e trace = false := by
+character, no grammar rule is referenced before it, and the implicit rules (which it may enter where
+skipping is on) begin with a character. -/
+theorem guarded_checkExpr (extras : Bool) (rules : List Rule) (hG : ∀ r ∈ rules, Guarded rules true r.expr = true) :
+    ∀ (fuel : Nat) (e : Expr) (trace : List (String × Bool)) (skips : Bool),
+    (∀ k ∈ trace, (lookup rules k.1).isSome = true) →
+    (skips = true → trace.head? ≠ some ("WHITESPACE", false) ∧ trace.head? ≠ some ("COMMENT", false)) →
+    Guarded rules true e = true → checkExpr extras rules fuel e trace skips = false := by
   intro fuel
   induction fuel with
   | zero => intros; rfl
   | succ fuel ih =>
-    intro e trace htr h
-    cases e <;> simp only [Guarded, Bool.and_eq_true, Bool.true_and] at h <;> simp only [checkExpr]
+    intro e trace skips htr hsk h
+    have himpl : implF extras rules fuel trace skips = false := by
+      cases skips with
+      | false => simp [implF]
+      | true =>
+        have key : ∀ nm, (nm = "WHITESPACE" ∨ nm = "COMMENT") → enterF extras rules fuel trace true nm = false := by
+          intro nm hn
+          have hs : skipsInside rules nm true = false := skipsInside_ws rules hn true
+          have hh : trace.head? ≠ some (nm, false) := by
+            rcases hn with rfl | rfl
+            · exact (hsk rfl).1
+            · exact (hsk rfl).2
+          by_cases hc : (nm, false) ∈ trace
+          · simp [enterF, checkExpr, hs, hh, hc]
+          · cases hl : lookup rules nm with
+            | none => simp [enterF, checkExpr, hs, hh, hc, hl]
+            | some body =>
+              rw [enterF_step (by rw [hs]; exact hc) hl, hs]
+              obtain ⟨r, hr, _, hrb⟩ := lookup_some_mem hl
+              refine ih body _ false ?_ (fun h => by cases h) (hrb ▸ hG r hr)
+              intro k hk
+              simp only [List.mem_append, List.mem_singleton] at hk
+              rcases hk with hk | rfl
+              · exact htr k hk
+              · simp [hl]
+        simp [implF, key _ (Or.inl rfl), key _ (Or.inr rfl)]
+    cases e <;> simp only [Guarded, Bool.and_eq_true, Bool.true_and] at h
     case ident n =>
       have hl : lookup rules n = none := by simpa using h
-      have hnot : n ∉ trace := fun hm => by have := htr n hm; simp [hl] at this
-      have hh : trace.head? ≠ some n := fun hh => hnot (List.mem_of_mem_head? hh)
-      simp [hh, hl]
+      have hnot : ∀ b, (n, b) ∉ trace := fun b hm => by have := htr _ hm; simp [hl] at this
+      have hh : ∀ b, trace.head? ≠ some (n, b) := fun b hh => hnot b (List.mem_of_mem_head? hh)
+      simp [checkExpr, hh, hl]
     case seq a b =>
+      rw [checkExpr_seq']
       cases hL : Lead rules a with
       | true =>
         rw [lead_not_nonFailing rules _ a _ hL, lead_not_nonProgressing rules _ a _ hL]
-        simpa using ih a trace htr h.1
+        simpa using ih a trace skips htr hsk h.1
       | false =>
         have hb : Guarded rules true b = true := by simpa [hL] using h.2
-        simp [ih a trace htr h.1, ih b trace htr hb]
-    case choice a b => simp [ih a trace htr h.1.2, ih b trace htr h.2]
-    case rep a => exact ih a trace htr h.2
-    case repOnce a => exact ih a trace htr h.2
-    case repMin a n => exact ih a trace htr h.2
-    case opt a => exact ih a trace htr h
-    case posPred a => exact ih a trace htr h
-    case negPred a => exact ih a trace htr h
-    case push a => exact ih a trace htr h
-    case repExact a n => exact ih a trace htr h
-    case repMax a n => exact ih a trace htr h
-    case repMinMax a lo hi => exact ih a trace htr h
+        simp [ih a trace skips htr hsk h.1, ih b trace skips htr hsk hb, himpl]
+    case choice a b => simp [checkExpr, ih a trace skips htr hsk h.1.2, ih b trace skips htr hsk h.2]
+    case rep a => simp only [checkExpr]; exact ih a trace skips htr hsk h.2
+    case repOnce a => simp only [checkExpr]; exact ih a trace skips htr hsk h.2
+    case repMin a n => simp only [checkExpr]; exact ih a trace skips htr hsk h.2
+    case opt a => simp only [checkExpr]; exact ih a trace skips htr hsk h
+    case posPred a => simp only [checkExpr]; exact ih a trace skips htr hsk h
+    case negPred a => simp only [checkExpr]; exact ih a trace skips htr hsk h
+    case push a => simp only [checkExpr]; exact ih a trace skips htr hsk h
+    case repExact a n => rw [checkExpr_repExact']; simp [ih a trace skips htr hsk h, himpl]
+    case repMax a n => rw [checkExpr_repMax]; simp [ih a trace skips htr hsk h, himpl]
+    case repMinMax a lo hi => rw [checkExpr_repMinMax']; simp [ih a trace skips htr hsk h, himpl]
     case nodeTag a t =>
+      simp only [checkExpr]
       cases extras
       · simp
-      · simpa using ih a trace htr h
+      · simpa using ih a trace skips htr hsk h
+    all_goals simp [checkExpr]
 
 /-- **Completeness.** A strictly guarded, well-named grammar is accepted. -/
 theorem validator_complete (extras : Bool) (rules : List Rule) (hwn : WellNamed rules)
@@ -425,12 +496,23 @@ theorem validator_complete (extras : Bool) (rules : List Rule) (hwn : WellNamed 
     unfold leftRecursion
     rw [List.filterMap_eq_nil_iff]
     intro r hr
-    rw [guarded_checkExpr extras rules _ r.expr [r.name] ?_ (hG r hr)]
-    · rfl
-    · intro n hn
-      simp only [List.mem_singleton] at hn
-      subst hn
-      exact lookup_isSome_of_mem hr
+    have key : ∀ (F : Nat) (b : Bool), checkExpr extras rules F r.expr [(r.name, skipsInside rules r.name b)]
+        (skipsInside rules r.name b) = false := by
+      intro F b
+      refine guarded_checkExpr extras rules hG F r.expr _ _ ?_ ?_ (hG r hr)
+      · intro k hk
+        simp only [List.mem_singleton] at hk
+        subst hk
+        exact lookup_isSome_of_mem hr
+      · intro hsk
+        simp only [List.head?_cons]
+        constructor <;>
+        · intro heq
+          simp only [Option.some.injEq, Prod.mk.injEq] at heq
+          rw [heq.2] at hsk
+          cases hsk
+    simp only [key]
+    rfl
   unfold validateAst
   rw [hrep, hch, hws, hlr, ht]
   rfl
@@ -444,5 +526,22 @@ def exRules : List Rule :=
 example : validateAst false exRules = [] ∧ (∀ r ∈ exRules, StackFree r.expr = true) ∧
     (∀ r ∈ exRules, Guarded exRules true r.expr = true) := by
   decide
+
+/-- … and the soundness theorem applies to it: parsing from `list` terminates on every input. -/
+theorem exRules_terminates (uni : String → Option CharSet) (input : Str) :
+    ∃ fuel, meaning exRules false uni fuel "list" input ≠ .fuel :=
+  validator_sound_meaning false exRules (by decide) (by decide) (fun _ => by decide) uni "list" input
+
+/-- a `!{…}` rule reachable from `WHITESPACE` (a comment with skipping inside it) that is fine:
+`WHITESPACE = _{ " " | c }   c = !{ "/*" ~ "x"* ~ "*/" }   main = { c* }`. -/
+def exWsNonAtomic : List Rule :=
+  [⟨"WHITESPACE", .silent, .choice (.str [' ']) (.ident "c")⟩,
+   ⟨"c", .nonAtomic, .seq (.str ['/', '*']) (.seq (.rep (.str ['x'])) (.str ['*', '/']))⟩,
+   ⟨"main", .normal, .rep (.ident "c")⟩]
+
+theorem exWsNonAtomic_terminates (extras : Bool) (uni : String → Option CharSet) (input : Str) :
+    validateAst extras exWsNonAtomic = [] ∧ ∃ fuel, meaning exWsNonAtomic extras uni fuel "main" input ≠ .fuel :=
+  ⟨by revert extras; decide,
+   validator_sound_meaning extras exWsNonAtomic (by decide) (by revert extras; decide) (fun _ => by decide) uni "main" input⟩
 
 end PestModel.C06
